@@ -154,7 +154,9 @@ class C06Monitor:
                        {"market": m.market_id, "now": now, "asked": now + 1, "answer": val})
             for name in SERIES:
                 f = getattr(m, name)
-                for times in ([now + 1], range(max(0, now - 1), now + 2), [0, now + 3]):
+                for times in ([now + 1], range(max(0, now - 1), now + 2), [0, now + 3],
+                              range(now + 2, max(now - 2, -1), -1), (now + 1,), [0, now + 1, 0],
+                              range(now + 1, -1, -1)):
                     try:
                         val = f(times)
                     except Exception:  # noqa
